@@ -93,15 +93,15 @@ structure WVariant where
   /-- the flags of the `Text` model (C05) -/
   text : Variant
   /-- `Lines.justify` "center"/"right" call `pad_left` with a *negative* count when the line stays wider
-  than the width (overflow "ignore"): the characters stay and every span moves to the left. -/
+  than the width (overflow "ignore"): the characters stay and every span moves to the left (rich 9.10.0 as found; `false` = fix 90b2e96). -/
   justifyNeg : Bool
-  /-- `Text.rstrip_end` compares the *character* count of the line with the cell width (`Text.rstripEndW true`);
-  `false` = `cell_len(self.plain)` (pending_fixes/C08-rstrip-end-counts-cells.diff). -/
+  /-- `Text.rstrip_end` compares the *character* count of the line with the cell width (`Text.rstripEndW true`; rich 9.10.0 as found);
+  `false` = `cell_len(self.plain)` (fix f5f2be9, the former pending_fixes/C08-rstrip-end-counts-cells.diff; what /repo contains now). -/
   rstripChars : Bool
 deriving Repr, BEq, DecidableEq
 
 def WVariant.released : WVariant := ⟨Variant.released, true, true⟩
-/-- the two repairs asked for by C05/C02 in place, `rstrip_end` in either variant -/
+/-- the two repairs asked for by C05/C02 in place, `rstrip_end` in either variant (`chars = true`: as found; `false`: fix f5f2be9) -/
 def WVariant.fixed (chars : Bool) : WVariant := ⟨Variant.repaired, false, chars⟩
 def WVariant.repaired : WVariant := WVariant.fixed false
 
